@@ -32,9 +32,9 @@ PREMATURE = 'numbering:premature-ack'
 
 
 def monitor(case, out, numbering):
-    """returns (violation or None, stats, notes); violation / note = (key, why, event index).  Notes are
-    occurrences of the one known deviation (see known_findings.json): an ack that names the current,
-    not yet emitted fragment is counted, so the emitted numbers skip one."""
+    """returns (violation or None, stats, notes); violation = (key, why, event index).  A numbering gap
+    that coincides with an ack naming the current, not yet emitted fragment is reported under the key
+    of that (repaired, iodine 1b8dff8) defect, any other gap under numbering / numbering-start."""
     st = dict(events=0, data_answers=0, attributed=0, max_fill=0.0, at_bound=0, n_small=0, n_acc=0, badfrag=0,
               packets_tiled=0, frags_tracked=0, reemissions=0, wraps=0, abandoned=0, dataless=0)
     cfg, evs = srvmon.history_events(case)
@@ -164,15 +164,13 @@ def monitor(case, out, numbering):
                 if v:
                     return v, st, notes
                 fl = None
+            gap = (frag != 0) if fl is None else (frag != fl['frag'] and frag != (fl['frag'] + 1) % 16)
             if premature(slot, seq):
-                # known deviation: the ack of this very query named the fragment that had not been sent yet
-                notes.append((PREMATURE, 'session %d: an ack for fragment %d of sequence number %d arrived before that fragment was '
-                              'ever sent; the server counted it and the fragment went out with number %d' % (
-                                  slot, (frag - 1) % 16, seq, frag), k))
                 st['premature_acks'] = st.get('premature_acks', 0) + 1
-                flights.pop(slot, None)
-                skipseq[slot] = seq
-                continue
+                if gap:
+                    return (PREMATURE, 'session %d: an ack for fragment %d of sequence number %d arrived before that fragment was '
+                            'ever sent; the server counted it and the fragment went out with number %d' % (
+                                slot, (frag - 1) % 16, seq, frag), k), st, notes
             if fl is None:
                 if frag != 0:
                     return ('numbering-start', 'session %d: the first fragment seen of sequence number %d is numbered %d' % (
